@@ -2,6 +2,7 @@ import TypstyleModel.Model.Printer.Knot
 import TypstyleModel.Model.Cert
 import TypstyleModel.Model.Range
 import TypstyleModel.Model.Cli
+import TypstyleModel.Proofs.CarriesKnot
 /-! Line-protocol driver: evaluates the model's executable definitions on the cases the Rust
 harness produced from the implementation, and reports where they differ.  One `R …` line per case. -/
 open Pretty Typstyle
@@ -260,7 +261,12 @@ def evalRange (s : S) (a b : Nat) (res : Option (Nat × Nat × String)) : IO Uni
   let m := formatRange s.cfg (fun x => x.length) s.src t a b
   -- by-construction certificate of the replacement document (C13 with C01/C06/C07/C08/C10)
   let cert := match formatRangeDoc s.cfg (fun x => x.length) s.src t a b with
-    | .ok node _ _ d _ => if rangeCertified s.cfg.reorder node d then "rcert=ok" else "rcert=viol"
+    | .ok node _ _ d _ =>
+      let c := rangeCertified s.cfg.reorder node d
+      -- route M: is the covering node an expression of the fragment for which certification is a theorem
+      -- (C13_fragment_replacement_is_certified)?  Then the certificate cannot fail.
+      let frag := isExpr node && inFrag node
+      (if c then "rcert=ok" else "rcert=viol") ++ (if frag then (if c then " rm=in" else " rm=viol") else " rm=out")
     | _ => "rcert=na"
   match m, res with
   | .refused, none => IO.println s!"R {s.gen} {s.idx} range=eq"
